@@ -20,6 +20,7 @@ func checkC11(p *Prog, r *Report) {
 	checkOptionGuards(p, r)
 	checkModTimeEqual(p, r, "C11/SECOND-GRANULARITY")
 	checkKeepPerms(p, r)
+	checkKeepPermsTransferred(p, r)
 	checkTypeTables(p, r)
 	checkFieldBindings(p, r)
 	checkEncoderCarries(p, r, "C11/WIRE-METADATA", "the sender puts every entry's own metadata on the wire: for every (file type × option subset) the entry encoder emits exactly one record sequence, with length, mtime and mode for every entry and uid/gid/rdev/link target under their options (it never marks a field as 'same as previous': the two ends would have to agree on which entry is the previous one, e.g. across excluded entries and source arguments)")
